@@ -36,9 +36,14 @@ Record case_C20 := {
         then had and what the four entry points did; afterwards the directory was replaced by the
         next state and finally by c20_tree.  The model is stateless: every step is judged on its own
         tree, so any state the implementation carries from one lookup to the next shows up. *)
-  c20_orig : option (option str * option str)
+  c20_orig : option (option str * option str);
      (* legacy layout: the ORIGINAL project name and workspace_dir the legacy writer was given,
         before ConfigObj quoted / un-quoted them (None for other layouts) *)
+  c20_rel : list (str * str * gobs)
+     (* the entry points called with OTHER spellings of a path from OTHER working directories, on the
+        pristine tree: (os.getcwd() of the process, the path string handed to signac, what happened).
+        Relative paths ("." / "sub" / ".." / "../..") from the project directory, from its
+        sub-directories, its workspace and a job directory, and from the directory above it. *)
 }.
 
 Definition base_comps (base : str) : list str := filter nonempty (split_sl base).
@@ -106,13 +111,24 @@ Definition with_tree (c : case_C20) (t : node) : case_C20 :=
      c20_gate := c20_gate c; c20_mig := c20_mig c; c20_mig_post := c20_mig_post c;
      c20_again := c20_again c; c20_again_changed := c20_again_changed c;
      c20_jobs_before := c20_jobs_before c; c20_open_after := c20_open_after c;
-     c20_name_after := c20_name_after c; c20_hist := []; c20_orig := c20_orig c |}.
+     c20_name_after := c20_name_after c; c20_hist := []; c20_orig := c20_orig c; c20_rel := [] |}.
+
+(* the same case asked through another working directory / path string *)
+Definition with_query (c : case_C20) (cwd path : str) : case_C20 :=
+  {| c20_base := c20_base c; c20_tree := c20_tree c; c20_root := path; c20_cwd := cwd;
+     c20_gate := c20_gate c; c20_mig := c20_mig c; c20_mig_post := c20_mig_post c;
+     c20_again := c20_again c; c20_again_changed := c20_again_changed c;
+     c20_jobs_before := c20_jobs_before c; c20_open_after := c20_open_after c;
+     c20_name_after := c20_name_after c; c20_hist := []; c20_orig := c20_orig c; c20_rel := [] |}.
+
+Definition agree_rel (c : case_C20) : bool :=
+  forallb (fun q => match q with (cwd, path, g) => agree_g (with_query c cwd path) g end) (c20_rel c).
 
 Definition agree_hist (c : case_C20) : bool :=
   forallb (fun st => forallb (agree_g (with_tree c (fst st))) (snd st)) (c20_hist c).
 
 Definition mismatch_C20 (c : case_C20) : bool :=
-  negb (forallb (agree_g c) (c20_gate c) && agree_mig c && agree_hist c).
+  negb (forallb (agree_g c) (c20_gate c) && agree_mig c && agree_hist c && agree_rel c).
 
 (* ------------------------------------------------------------------ the property (oracle) *)
 Inductive layout := LV1 (c : cfgrec) | LV2 (c : cfgrec) | LNone.
@@ -159,6 +175,48 @@ Definition gate_ok (c : case_C20) (g : gobs) : bool :=
         negb (g_changed g) && res_str_eqb (g_res g) (Err EIncompatibleSchemaVersion)
   end.
 
+(* --- the gate asked from elsewhere.  Written over PHYSICAL locations, independently of the string
+   walk of the model: the place the query denotes is resolved, and the nearest directory at or above
+   it that holds a configuration of either layout is looked up prefix by prefix.  When that directory
+   declares an unsupported version, get_project (search) from anywhere at or below it, and every
+   entry point asked for the directory itself under any spelling, must raise
+   IncompatibleSchemaVersion and change nothing; an up-to-date .signac/config must open as that
+   directory.  (search=False / Project / init_project strictly below a project are about another
+   directory and are compared with the model only.) *)
+Fixpoint nearest_cfgdir (root : node) (rph : list str) : option (list str * layout) :=
+  match (match get root (rev rph) with Some pd => layout_of pd | None => LNone end) with
+  | LNone => match rph with [] => None | _ :: r' => nearest_cfgdir root r' end
+  | l => Some (rev rph, l)
+  end.
+
+Definition verdict_ok (l : layout) (expect_root : str) (g : gobs) : bool :=
+  match declared l with
+  | None => true
+  | Some v =>
+      if Z.eqb v SCHEMA then
+        match l with LV2 _ => res_str_eqb (g_res g) (Ok expect_root) | _ => true end
+      else negb (g_changed g) && res_str_eqb (g_res g) (Err EIncompatibleSchemaVersion)
+  end.
+
+Definition rel_ok (c : case_C20) (q : str * str * gobs) : bool :=
+  match q with
+  | (cwd, path, g) =>
+      let root := mkroot (c20_base c) (c20_tree c) in
+      match os_resolve root cwd path with
+      | None => true
+      | Some ph =>
+          match nearest_cfgdir root (rev ph) with
+          | None => true
+          | Some (pp, l) =>
+              let applies := match g_kind g with
+                             | GGet true => true
+                             | _ => list_eqb str_eqb pp ph
+                             end in
+              if applies then verdict_ok l (SL :: join_sl pp) g else true
+          end
+      end
+  end.
+
 Definition jobrec_eqb (a b : jobrec) : bool :=
   str_eqb (j_id a) (j_id b) && json_eqb (norm (j_sp a)) (norm (j_sp b))
   && json_eqb (norm (j_doc a)) (norm (j_doc b))
@@ -171,7 +229,10 @@ Definition opt_node_eqb (a b : option node) : bool :=
   | _, _ => false
   end.
 
-Definition wcomps (w : str) : list str := filter nonempty (split_sl w).
+(* the place a workspace_dir value names below the project directory: its components with empty and
+   "." components dropped (and "x/.." folded), the way the kernel reads os.path.join(root, w).
+   "./workspace" and "workspace/" name the directory "workspace". *)
+Definition wcomps (w : str) : list str := norm_comps false (split_sl w).
 
 Definition touched (w : str) : list str :=
   (match wcomps w with x :: _ => [x] | [] => [] end)
@@ -246,7 +307,9 @@ Definition mig_ok (c : case_C20) : bool :=
             | LV1 c0 =>
                 if Z.ltb v 0 then true else
                 let w := match cws c0 with Some w => w | None => s_workspace end in
-                let custom := negb (str_eqb w s_workspace) in
+                (* custom = the configured directory is another PLACE than <root>/workspace (not: another
+                   spelling; the code compares strings - known finding 2) *)
+                let custom := negb (list_eqb str_eqb (wcomps w) [s_workspace]) in
                 let name := match cproj c0 with Some n => n | None => s_None end in
                 if custom && match get pre [s_workspace] with Some _ => true | None => false end then
                   (* collision: refused; every job stays where it was; still a migratable v1 project *)
@@ -303,11 +366,48 @@ Definition hist_ok (c : case_C20) : bool :=
   forallb (fun st => forallb (gate_ok (with_tree c (fst st))) (snd st)) (c20_hist c).
 
 Definition holds_C20 (c : case_C20) : bool :=
-  forallb (gate_ok c) (c20_gate c) && mig_ok c && orig_ok c && hist_ok c.
+  forallb (gate_ok c) (c20_gate c) && mig_ok c && orig_ok c && hist_ok c && forallb (rel_ok c) (c20_rel c).
 Definition violation_C20 (c : case_C20) : bool := negb (holds_C20 c).
 
 Definition mismatches_C20 (cs : list case_C20) : list N := indices_where mismatch_C20 cs.
 Definition violations_C20 (cs : list case_C20) : list N := indices_where violation_C20 cs.
+
+(* ------------------------------------------------------------------ known finding, classified on the INPUT
+   tag 2: a migratable legacy project (signac.rc, declared version 0 or 1) whose workspace_dir is a
+   SPELLING of the default that is not the string "workspace" ("./workspace", "workspace/") and whose
+   workspace directory exists: _migrate_v1_to_v2 compares the string, takes the directory for a custom
+   one and refuses with "workspace already exists" - a collision of the workspace with itself. *)
+Definition classify_C20 (c : case_C20) : N :=
+  match proj_phys c with
+  | None => 0
+  | Some ph =>
+      match get (c20_tree c) (skipn (List.length (base_comps (c20_base c))) ph) with
+      | Some pre =>
+          match layout_of pre with
+          | LV1 c0 =>
+              match declared (LV1 c0), cws c0 with
+              | Some v, Some w =>
+                  if Z.leb 0 v && Z.ltb v SCHEMA
+                     && negb (str_eqb w s_workspace) && list_eqb str_eqb (wcomps w) [s_workspace]
+                     && match get pre [s_workspace] with Some _ => true | None => false end
+                  then 2 else 0
+              | _, _ => 0
+              end
+          | _ => 0
+          end
+      | None => 0
+      end
+  end%N.
+
+Fixpoint known_aux (cs : list case_C20) (i : N) : list N :=
+  match cs with
+  | [] => []
+  | k :: cs' => match classify_C20 k with
+                | 0%N => known_aux cs' (N.succ i)
+                | t => (i * 100 + t)%N :: known_aux cs' (N.succ i)
+                end
+  end.
+Definition known_C20 (cs : list case_C20) : list N := known_aux cs 0%N.
 
 (* debugging aids *)
 Definition bad_gates (c : case_C20) : list N := indices_where (fun g => negb (agree_g c g)) (c20_gate c).
